@@ -134,7 +134,7 @@ def fits(v, w, s):
 
 
 def obligations(tier):
-    B = 64 if tier == "thorough" else 48
+    B = 64     # (both tiers: the symbolic runs are cheap, and 2**49 is where float shortcuts start to round)
     RB = 16 if tier == "quick" else 24
     obs = []
 
